@@ -2,7 +2,7 @@
 META = {
     "level": "exploration",
     "technique": "acceptance automaton run beside the real IntroducerClient and IntroducerService on seeded hostile announcement streams; per-item attribution through an instrumented batch iterable; independent ed25519 decision",
-    "text": "Feeds a real IntroducerClient (no tub, real cache file, virtual time) histories of 12-30 batches of 1-6 announcements from 3-4 real ed25519 keys over subscribed and unsubscribed services: valid (made with the real sign_to_foolscap), higher / equal / lower / missing / non-integer seqnums, exact replays of any earlier announcement, forged (signed by another key), corrupted signature or message, unsigned, malformed key or signature strings (prefix, base32 alphabet, length), validly signed but non-JSON / non-UTF-8 / non-dict / field-type-broken payloads, bad items at every batch position. A subscriber callback records (batch position, key, announcement). Oracle automaton per (service,key): deliver iff the signature verifies under the claimed key (cryptography called directly) and the announcement is new or carries a strictly higher integer seqnum; attribution == signing key; content == signed payload; every item of a batch is judged even if an earlier one was bad; a late subscriber receives exactly the stored set. The same streams go one by one to a real IntroducerService (remote_publish_v2 / remote_subscribe_v2, fake subscriber rrefs) whose forwards are judged by the same automaton and are chained into a second real client. Sampled.",
+    "text": "Feeds a real IntroducerClient (no tub, real cache file, virtual time) histories of 12-30 batches of 1-6 announcements from 3-4 real ed25519 keys over subscribed and unsubscribed services: valid (made with the real sign_to_foolscap), higher / equal / lower / missing / non-integer seqnums, exact replays of any earlier announcement, forged (signed by another key), corrupted signature or message, unsigned, malformed key or signature strings (prefix, base32 alphabet, length), history-dependent forgeries that re-use byte for byte the signature string of a genuine announcement the client processed earlier or just before in the same batch (with an altered message, under another valid key, under a malformed key), validly signed but non-JSON / non-UTF-8 / non-dict / field-type-broken payloads, bad items at every batch position. A subscriber callback records (batch position, key, announcement). Oracle automaton per (service,key): deliver iff the signature verifies under the claimed key (cryptography called directly) and the announcement is new or carries a strictly higher integer seqnum; attribution == signing key; content == signed payload; every item of a batch is judged even if an earlier one was bad; a late subscriber receives exactly the stored set. The same streams go one by one to a real IntroducerService (remote_publish_v2 / remote_subscribe_v2, fake subscriber rrefs) whose forwards are judged by the same automaton and are chained into a second real client. Sampled.",
     "note": "Trusts the cryptography package's Ed25519 verify. Announcements whose stored predecessor has no or a non-integer seqnum, bool/float seqnums, and whether a validly signed but malformed payload is itself delivered are dont_care; model state is re-synchronised from observed deliveries after every item.",
 }
 LEVEL = "exploration"
@@ -215,6 +215,30 @@ def run(ck):
                  "sig-bad-prefix", "sig-bad-base32", "sig-63-bytes", "sig-65-bytes",
                  "signed-non-json", "signed-non-utf8", "signed-json-list", "signed-no-service-name",
                  "signed-nickname-int", "signed-furl-garbage", "signed-furl-int"]
+
+    # history-dependent forgeries: re-use, byte for byte, the signature string of a genuine announcement the client
+    # has already verified (or is verifying just before, in the same batch)
+    REUSE_KINDS = ["reuse-sig-altered-msg", "reuse-sig-other-key", "reuse-sig-malformed-key", "reuse-sig-altered-msg-other-key"]
+
+    def make_reuse(kind, genuine, others):
+        msg, sig, claimed = genuine.ann_t
+        if "altered-msg" in kind:
+            p = dict(genuine.payload)
+            vf_id[0] += 1
+            p["vf-id"] = vf_id[0]
+            old_seq = p.get("seqnum", 0)
+            p["seqnum"] = (old_seq if proper_int(old_seq) else 0) + rng.choice([1, 2, 10 ** 6])
+            what = rng.choice(["furl", "nickname", "both", "seqnum-only"])
+            if what in ("furl", "both"):
+                p["anonymous-storage-FURL"] = "pb://attackerattackerattackerattacker@tcp:evil.example:1/swiss"
+            if what in ("nickname", "both"):
+                p["nickname"] = "forged-%d" % vf_id[0]
+            msg = json.dumps(p).encode("utf-8")
+        if "other-key" in kind:
+            claimed = rng.choice(others).v0
+        elif "malformed-key" in kind:
+            claimed = rng.choice([b"v0-notakeyatall", b"v0-", claimed[:-5], b"v0-" + claimed[3:].upper(), b"v0-!!"])
+        return Item(kind, (msg, sig, claimed), genuine.signer)
 
     def make_bad(kind, key, others, seq, service, history):
         p = payload(service, seq)
@@ -501,6 +525,23 @@ def run(ck):
                 items = goods[:pos] + [bad] + goods[pos:]
                 ck.hit("directed:" + kind)
                 c.feed(items, "directed")
+        # signature re-use: genuine first (earlier batch, or the item just before in the same batch), then the forgery
+        for kind in REUSE_KINDS:
+            for same_batch in (False, True):
+                for pos in range(npos):
+                    if ck.out_of_time():
+                        break
+                    c = ClientUnderTest("r")
+                    genuine = make_valid(keys[0], c.stored, "storage", [], force="higher")
+                    goods = [make_valid(keys[1 + (j % 3)], c.stored, "storage", [], force="higher") for j in range(npos - 1)]
+                    forged = make_reuse(kind, genuine, keys[1:])
+                    ck.hit("directed:" + kind + (":same-batch" if same_batch else ":later-batch"))
+                    if same_batch:
+                        c.feed(goods[:pos] + [genuine, forged] + goods[pos:], "directed-sig-reuse")
+                    else:
+                        c.feed([genuine], "directed-sig-reuse")
+                        c.feed(goods[:pos] + [forged] + goods[pos:], "directed-sig-reuse")
+                        c.feed([genuine, forged], "directed-sig-reuse")      # and again after an exact replay
         # the stored non-integer seqnum poisoning: K announces seqnum "abc", later an integer
         for first in ("abc", None, [1]):
             c = ClientUnderTest("p")
@@ -526,7 +567,19 @@ def run(ck):
                     key = rng.choice(keys)
                     others = [k for k in keys if k is not key]
                     service = rng.choice(["storage", "storage", "storage", "svc2", UNSUBSCRIBED])
-                    if rng.random() < .6:
+                    r = rng.random()
+                    if r < .15 and history:
+                        # forgery re-using the signature of a genuine announcement this client has already processed;
+                        # half the time the genuine one travels (again, or for the first time) just before it
+                        genuine = rng.choice([x for x in history if x.service in SUBSCRIBED] or history)
+                        if rng.random() < .5:
+                            if rng.random() < .5:
+                                genuine = make_valid(key, c.stored, rng.choice(SUBSCRIBED), [], force="higher")
+                                history.append(genuine)
+                            items.append(genuine)
+                            ck.hit("class:genuine-just-before-its-forgery")
+                        it = make_reuse(rng.choice(REUSE_KINDS), genuine, [k for k in keys if k.v0 != genuine.claimed])
+                    elif r < .6:
                         it = make_valid(key, c.stored, service, [x for x in history if x.claimed == key.v0])
                     else:
                         old = c.stored.get((service, key.v0))
@@ -536,7 +589,7 @@ def run(ck):
                     items.append(it)
                     if it.sig_valid and it.wellformed:
                         history.append(it)
-                if rng.random() < .3:
+                if rng.random() < .3 and not any(x.kind.startswith("reuse-sig") for x in items):
                     rng.shuffle(items)
                 c.feed(items, "history")
                 for it in items:
@@ -555,6 +608,9 @@ def run(ck):
         env.evq.reset()
 
     ck.require_monitor("client-automaton", "server-automaton", "late-subscriber-catchup", "server-late-subscriber-catchup")
+    ck.require_reach(*["directed:%s:%s" % (k, w) for k in REUSE_KINDS for w in ("same-batch", "later-batch")])
+    ck.require_reach(*["class:" + k for k in REUSE_KINDS])
+    ck.require_reach("class:genuine-just-before-its-forgery")
     ck.require_reach("accepted:new", "accepted:higher-seqnum", "rejected:unauthenticated", "rejected:equal-seqnum",
                      "rejected:lower-seqnum", "rejected:duplicate", "rejected:no-valid-seqnum", "rejected:unsubscribed-service",
                      "server-accepted:higher-seqnum", "server-rejected:unauthenticated", "server-rejected:lower-seqnum",
